@@ -586,3 +586,58 @@ func ruleDEFAULTFALLBACK(c *Ctx) {
 		c.add(rule, "count:", token.NoPos, CountDropped, true, "only %d owner tests (tmCheck[pos] == x) found in the generated parsers", n)
 	}
 }
+
+// SIBLING(flush-bound): before a symbol is shifted (or an error node is reported), the pending
+// skipped tokens that lie inside it are reported first, so that a node strictly containing a
+// token is reported after it. Every flush implementation (TokenStream.flush of tm/js,
+// Parser.flush of the parsers without a token stream) must stop at the first pending token that
+// ends after the symbol's END: the stop test is `tok.endoffset > sym.endoffset`. Compared with
+// sym.offset, tokens covered by a recovered error node stay pending and are reported after it.
+func ruleFLUSHBOUND(c *Ctx) {
+	const rule = "SIBLING(flush-bound)"
+	n := 0
+	for _, rel := range parserPkgs {
+		for _, name := range []string{"(*TokenStream).flush", "(*Parser).flush"} {
+			f := c.SSAFunc(rel, name)
+			if f == nil {
+				continue
+			}
+			var sym *ssa.Parameter
+			for _, p := range f.Params {
+				if p.Name() == "sym" {
+					sym = p
+				}
+			}
+			loops := naturalLoops(f)
+			for _, b := range f.Blocks {
+				if len(b.Instrs) == 0 || innermostLoop(loops, b) == nil {
+					continue
+				}
+				ifi, ok := b.Instrs[len(b.Instrs)-1].(*ssa.If)
+				if !ok {
+					continue
+				}
+				l, op, r, ok := cmpNorm(ifi.Cond, true)
+				if !ok || !(strings.Contains(l, "offset") && strings.Contains(r, "offset")) {
+					continue
+				}
+				n++
+				key := fmt.Sprintf("%s:stop-test", ssaFuncKey(f))
+				symSide, tokSide := l, r
+				if sym != nil && strings.HasPrefix(r, "sym.") {
+					symSide, tokSide = r, l
+					// a < b with the symbol on the right: tok < sym, not the stop test we expect
+					op = "flipped" + op
+				}
+				if op == "<" && symSide == "sym.endoffset" && strings.HasSuffix(tokSide, ".endoffset") {
+					c.Ok(rule, key, ifi.Cond.Pos(), "flushing stops at the first pending token that ends after the symbol's end")
+				} else {
+					c.Bad(rule, key, ifi.Cond.Pos(), "flush stops under %s %s %s instead of tok.endoffset > sym.endoffset: pending tokens inside the symbol (e.g. invalid tokens covered by an error node) are reported after the node that contains them", normalizePhi(l), op, normalizePhi(r))
+				}
+			}
+		}
+	}
+	if n < 4 {
+		c.add(rule, "count:", token.NoPos, CountDropped, true, "only %d flush stop tests found (tm, js, json, test confirmed by hand)", n)
+	}
+}
